@@ -31,6 +31,8 @@ pub enum CK {
     Of,
     /// streaming call: (number of items, ends?)
     W(u8, bool),
+    /// oneway call that the service answers with a stream: gets nothing, the connection carries on
+    Ow,
 }
 
 #[derive(Clone, Debug)]
@@ -47,6 +49,7 @@ pub fn call_spec(kind: CK, id: u32) -> CallSpec {
         CK::F => json!({"method": "t.Fail", "parameters": {"n": id}}),
         CK::Of => json!({"oneway": true, "method": "t.Fail", "parameters": {"n": id}}),
         CK::W(..) => json!({"method": "t.Watch", "parameters": {"k": id}, "more": true}),
+        CK::Ow => json!({"method": "t.Watch", "parameters": {"k": id}, "oneway": true}),
     };
     let mut frame = serde_json::to_vec(&v).unwrap();
     frame.push(0);
@@ -65,7 +68,7 @@ fn expected_reply(c: &CallSpec) -> Option<Value> {
     match c.kind {
         CK::P => Some(json!({"parameters": {"n": c.id, "tag": format!("tag-{}", c.id)}})),
         CK::F => Some(json!({"error": "t.Failed", "parameters": {"n": c.id}})),
-        CK::O | CK::Of | CK::W(..) => None,
+        CK::O | CK::Of | CK::W(..) | CK::Ow => None,
     }
 }
 
@@ -230,6 +233,7 @@ impl<'a> Sim<'a> {
                 CK::P | CK::O => conn.handled.push((c.id, 'P', matches!(c.kind, CK::O))),
                 CK::F | CK::Of => conn.handled.push((c.id, 'F', matches!(c.kind, CK::Of))),
                 CK::W(..) => conn.handled.push((c.id, 'W', false)),
+                CK::Ow => conn.handled.push((c.id, 'W', true)),
             }
             if let Some(v) = expected_reply(&c) {
                 conn.expected.push(v);
@@ -622,6 +626,7 @@ pub fn ck_name(k: &CK) -> String {
         CK::F => "F".into(),
         CK::Of => "Of".into(),
         CK::W(n, e) => format!("W{n}{}", if *e { "e" } else { "o" }),
+        CK::Ow => "Ow".into(),
     }
 }
 pub fn ck_parse(s: &str) -> CK {
@@ -630,6 +635,7 @@ pub fn ck_parse(s: &str) -> CK {
         "O" => CK::O,
         "F" => CK::F,
         "Of" => CK::Of,
+        "Ow" => CK::Ow,
         w => CK::W(w[1..2].parse().unwrap(), w.ends_with('e')),
     }
 }
@@ -725,7 +731,7 @@ impl Harness for Scenario {
                     if kinds.len() > 1 {
                         cx.goal("pipelined-burst");
                     }
-                    if kinds.iter().any(|k| matches!(k, CK::O | CK::Of)) {
+                    if kinds.iter().any(|k| matches!(k, CK::O | CK::Of | CK::Ow)) {
                         cx.goal("oneway-call");
                     }
                     if sim.conns[i].streaming.is_some() {
@@ -828,7 +834,7 @@ fn singles() -> Vec<Vec<CK>> {
 
 pub fn run_c08(tier: Tier) -> i32 {
     let mut bursts = singles();
-    bursts.extend([vec![CK::P, CK::P], vec![CK::O, CK::P], vec![CK::P, CK::F], vec![CK::F, CK::O, CK::P]]);
+    bursts.extend([vec![CK::P, CK::P], vec![CK::O, CK::P], vec![CK::P, CK::F], vec![CK::F, CK::O, CK::P], vec![CK::Ow, CK::P]]);
     let mk = |mc, calls, ev, cuts, sr, dp| ScenCfg { prop: "C08".into(), max_conns: mc, max_calls: calls, max_events: ev, bursts: bursts.clone(), faults: vec![], max_faults: 0, closes: false, cuts, short_reads: sr, delay_polls: dp, write_fault_on_stream: false };
     let plan = match tier {
         Tier::Quick => vec![("3conns/5calls/8events", mk(3, 5, 8, false, false, false), 0), ("2conns/4calls/6events+dev", mk(2, 4, 6, true, true, true), 2), ("3conns/4calls/7events+dev", mk(3, 4, 7, true, true, true), 1)],
